@@ -7,6 +7,7 @@ import (
 	"github.com/orbs-network/lean-helix-go/services/interfaces"
 	"github.com/orbs-network/lean-helix-go/services/storage"
 	"github.com/orbs-network/lean-helix-go/spec/types/go/primitives"
+	env "github.com/orbs-network/lean-helix-go/zzverifenv"
 )
 
 // ---------------- communication ----------------
@@ -41,6 +42,14 @@ type Membership struct {
 	OrderedCalls int
 	Interfere    func(ctx context.Context, where string)
 	LastCtx      context.Context
+	// ProofCommittee, if set, gives the committee per block height (committees may change between heights)
+	ProofCommittee func(h primitives.BlockHeight) []interfaces.CommitteeMember
+	ProofRequests  []ProofCommitteeRequest
+}
+
+type ProofCommitteeRequest struct {
+	Height  primitives.BlockHeight
+	RefTime primitives.TimestampSeconds
 }
 
 func (m *Membership) MyMemberId() primitives.MemberId { return m.Me }
@@ -58,8 +67,12 @@ func (m *Membership) RequestOrderedCommittee(ctx context.Context, blockHeight pr
 }
 
 func (m *Membership) RequestCommitteeForBlockProof(ctx context.Context, blockHeight primitives.BlockHeight, prevBlockReferenceTime primitives.TimestampSeconds) ([]interfaces.CommitteeMember, error) {
+	m.ProofRequests = append(m.ProofRequests, ProofCommitteeRequest{blockHeight, prevBlockReferenceTime})
 	if m.FailForProof {
 		return nil, ErrStub
+	}
+	if m.ProofCommittee != nil {
+		return m.ProofCommittee(blockHeight), nil
 	}
 	return m.Committee, nil
 }
@@ -113,7 +126,11 @@ func (u *BlockUtils) ValidateBlockProposal(ctx context.Context, blockHeight prim
 }
 
 func (u *BlockUtils) ValidateBlockCommitment(blockHeight primitives.BlockHeight, block interfaces.Block, blockHash primitives.BlockHash) bool {
-	return Commits(block, blockHash)
+	b, _ := block.(*Block)
+	if b == nil {
+		return false
+	}
+	return env.And(Commits(block, blockHash), b.H == blockHeight)
 }
 
 // ---------------- election scheduler ----------------
@@ -150,35 +167,44 @@ func (e *Election) Last() *Registration {
 // ---------------- storage recorder (wraps the real InMemoryStorage) ----------------
 
 type StoreEvent struct {
-	Kind string // "PP","P","C","VC"
-	Msg  interfaces.ConsensusMessage
-	New  bool
+	Kind        string // "PP","P","C","VC"
+	Msg         interfaces.ConsensusMessage
+	New         bool
+	StateHeight primitives.BlockHeight // node height when the store happened (set by the OnStore hook)
 }
 
 type Storage struct {
 	*storage.InMemoryStorage
-	Events []*StoreEvent
+	Events  []*StoreEvent
+	OnStore func(e *StoreEvent)
+}
+
+func (s *Storage) record(e *StoreEvent) {
+	s.Events = append(s.Events, e)
+	if s.OnStore != nil {
+		s.OnStore(e)
+	}
 }
 
 func NewStorage() *Storage { return &Storage{InMemoryStorage: storage.NewInMemoryStorage()} }
 
 func (s *Storage) StorePreprepare(ppm *interfaces.PreprepareMessage) bool {
 	r := s.InMemoryStorage.StorePreprepare(ppm)
-	s.Events = append(s.Events, &StoreEvent{"PP", ppm, r})
+	s.record(&StoreEvent{Kind: "PP", Msg: ppm, New: r})
 	return r
 }
 func (s *Storage) StorePrepare(pp *interfaces.PrepareMessage) bool {
 	r := s.InMemoryStorage.StorePrepare(pp)
-	s.Events = append(s.Events, &StoreEvent{"P", pp, r})
+	s.record(&StoreEvent{Kind: "P", Msg: pp, New: r})
 	return r
 }
 func (s *Storage) StoreCommit(cm *interfaces.CommitMessage) bool {
 	r := s.InMemoryStorage.StoreCommit(cm)
-	s.Events = append(s.Events, &StoreEvent{"C", cm, r})
+	s.record(&StoreEvent{Kind: "C", Msg: cm, New: r})
 	return r
 }
 func (s *Storage) StoreViewChange(vcm *interfaces.ViewChangeMessage) bool {
 	r := s.InMemoryStorage.StoreViewChange(vcm)
-	s.Events = append(s.Events, &StoreEvent{"VC", vcm, r})
+	s.record(&StoreEvent{Kind: "VC", Msg: vcm, New: r})
 	return r
 }
